@@ -304,6 +304,7 @@ func isBoolType(t types.Type) bool {
 
 func c20Match(c *core.Ctx) {
 	const rule = "C20-match"
+	c20ProofCodec(c, rule)
 	sx := core.NewSymx()
 	for _, name := range []string{"decodeEtrogCalldata", "decodePreEtrogCalldata"} {
 		fn := c.MustFn(rule, "bridgesync", "Claim", name)
@@ -398,8 +399,57 @@ func c20Match(c *core.Ctx) {
 	}
 }
 
+// c20FreshFrame: the trace of THIS transaction is decoded into a frame nothing was decoded into before. encoding/json
+// leaves fields whose keys are absent untouched (geth omits "error" on successful frames and "calls" on leaves), so a
+// reused frame keeps the previous transaction's revert marker or children.
+func c20FreshFrame(c *core.Ctx, rule string) {
+	fn := c.MustFn(rule, "bridgesync", "Claim", "setClaimCalldata")
+	if fn == nil {
+		return
+	}
+	var trace *ssa.CallCommon
+	var at ssa.Instruction
+	core.Instrs(fn, func(i ssa.Instruction) {
+		cc := core.AsCall(i)
+		if cc != nil && cc.IsInvoke() && cc.Method.Name() == "Call" && len(cc.Args) >= 2 {
+			if s, ok := core.ConstString(cc.Args[1]); ok && s == "debug_traceTransaction" {
+				trace, at = cc, i
+			} else if g, isG := cc.Args[1].(*ssa.UnOp); isG && strings.Contains(g.X.Name(), "debugTraceTxEndpoint") {
+				trace, at = cc, i
+			}
+		}
+	})
+	if trace == nil {
+		c.Undecide(rule, "bridgesync.(*Claim).setClaimCalldata#trace-call", fn.Pos(), "debug_traceTransaction call not found")
+		return
+	}
+	dst := trace.Args[0]
+	if mi, ok := dst.(*ssa.MakeInterface); ok {
+		dst = mi.X
+	}
+	al, isAlloc := dst.(*ssa.Alloc)
+	fresh := isAlloc
+	if isAlloc {
+		// no store into the frame before the trace call (zero value only)
+		for _, r := range *al.Referrers() {
+			if ri, ok := r.(ssa.Instruction); ok && ri != at {
+				switch x := r.(type) {
+				case *ssa.Store:
+					if x.Addr == ssa.Value(al) && core.Dominates(x, at) {
+						if _, isLit := x.Val.(*ssa.Const); !isLit {
+							fresh = false
+						}
+					}
+				}
+			}
+		}
+	}
+	c.Decide(fresh, rule, "bridgesync.(*Claim).setClaimCalldata#fresh-frame", at.Pos(), "the trace is decoded into a frame allocated by this call (not pooled / reused)")
+}
+
 func c20Revert(c *core.Ctx) {
 	const rule = "C20-revert"
+	c20FreshFrame(c, rule)
 	fn := c.MustFn(rule, "bridgesync", "", "findCall")
 	if fn == nil {
 		return
@@ -525,8 +575,53 @@ func isCallSlice(t types.Type) bool {
 	return ok && n.Obj().Name() == "call" && n.Obj().Pkg() != nil && strings.HasSuffix(n.Obj().Pkg().Path(), "/bridgesync")
 }
 
+// c20ProofCodec: the two proofs of a claim are stored as text and read back with common.HexToHash, which left-pads. Each
+// sibling must therefore be written as its full 32-byte hex (Hash.Hex / Hash.String / hexutil.Encode of the whole
+// array): a sibling written without its trailing zero bytes comes back shifted.
+func c20ProofCodec(c *core.Ctx, rule string) {
+	w := c.MustFn(rule, "db", "MerkleProofMeddler", "PreWrite")
+	r := c.MustFn(rule, "db", "MerkleProofMeddler", "PostRead")
+	if w == nil || r == nil {
+		return
+	}
+	sx := core.NewSymx()
+	full, partial := 0, []string{}
+	core.Instrs(w, func(i ssa.Instruction) {
+		cl, ok := i.(*ssa.Call)
+		if !ok {
+			return
+		}
+		n := core.CallName(cl)
+		t := sx.Of(cl).String()
+		if !strings.Contains(t, "typeassert") && !strings.Contains(t, "fieldPtr") {
+			return
+		}
+		switch {
+		case n == "(github.com/ethereum/go-ethereum/common.Hash).Hex" || n == "(github.com/ethereum/go-ethereum/common.Hash).String":
+			full++
+		case n == "github.com/ethereum/go-ethereum/common/hexutil.Encode":
+			if sl, isSl := cl.Call.Args[0].(*ssa.Slice); isSl && sl.Low == nil && sl.High == nil {
+				full++
+			} else {
+				partial = append(partial, t)
+			}
+		case strings.Contains(n, "Trim") && strings.Contains(n, "go-ethereum/common"):
+			partial = append(partial, t)
+		}
+	})
+	c.Decide(full > 0 && len(partial) == 0, rule, "db.MerkleProofMeddler.PreWrite#full-hex", w.Pos(), fmt.Sprintf("every sibling is written as its full 32-byte hex (partial encodings: %v)", partial))
+	okRead := false
+	core.Instrs(r, func(i ssa.Instruction) {
+		if core.IsCallTo(i, "github.com/ethereum/go-ethereum/common.HexToHash") {
+			okRead = true
+		}
+	})
+	c.Decide(okRead, rule, "db.MerkleProofMeddler.PostRead#hex", r.Pos(), "siblings are read back with common.HexToHash")
+}
+
 func c20Error(c *core.Ctx) {
 	const rule = "C20-error"
+	c05Append(c, rule) // (shared with C05-retry) "no matching non-reverted call" is an error that is retried, never a skipped log
 	sx := core.NewSymx()
 	for _, h := range []string{"buildClaimEventHandler", "buildClaimEventHandlerPreEtrog"} {
 		fn := c.MustFn(rule, "bridgesync", "", h)
@@ -568,9 +663,9 @@ func init() {
 		Explanation: "Decides the structural necessary conditions of 'claim details come only from the matching, non-reverted bridge call': C20-abi — the data[i] position used for every claim field and for the compared global index equals the position of the named input in claimAsset and claimMessage of the bridge ABI read from the binding package (the oracle is the contract interface, not a frozen number), the four method selectors equal keccak(signature)[:4] computed from the same ABI, and each generation's decoder receives the inputs unpacked with its own ABI; C20-match — a decoder returns found=true only on the edge where the decoded index equals the event's (big.Int Cmp == 0), writes nothing into the claim before that, and IsMessage is assigned only when found, from the selector comparison of the same generation; C20-revert — in findCall a popped frame is offered to the callback, returned, or expanded into children only past its Err == nil test (inductively: every visited frame and its ancestors are non-reverted), only frames addressed to the bridge reach the callback, an exhausted search returns ErrNotFound, and setClaimCalldata refuses a reverted root and propagates the search error; C20-error — the handlers record the claim only after setClaimCalldata returned nil. ABI decoding itself (go-ethereum) is trusted.",
 		Rules: []Rule{
 			{ID: "C20-abi", Floor: 18, Run: c20ABI, Text: "[FIELDMAP] vs ABI: data positions, selectors, decoder/ABI pairing"},
-			{ID: "C20-match", Floor: 6, Run: c20Match, Text: "[DOM] found only on index match; no writes before; IsMessage only when found"},
-			{ID: "C20-revert", Floor: 4, Run: c20Revert, Text: "[DOM] inductive non-reverted traversal; only bridge frames; not-found; root refused"},
-			{ID: "C20-error", Floor: 6, Run: c20Error, Text: "[DOM] claim recorded only after its calldata was found"},
+			{ID: "C20-match", Floor: 8, Run: c20Match, Text: "[DOM] found only on index match; no writes before; IsMessage only when found"},
+			{ID: "C20-revert", Floor: 5, Run: c20Revert, Text: "[DOM] inductive non-reverted traversal; only bridge frames; not-found; root refused"},
+			{ID: "C20-error", Floor: 7, Run: c20Error, Text: "[DOM] claim recorded only after its calldata was found"},
 		},
 	})
 }
